@@ -223,6 +223,7 @@ def record_onpolicy(cache: tb.EnvCache, cfg: dict, algo_name: str, N: int, iters
     jax.effects_barrier()
     clear_records(backend)
     done_count = [0] * N
+    big = [False] * N          # a poison reward (-99) was paid in this stream: the statistics leave the exact range earlier
     D = 2 ** (2 * T - 1)
     for it, k in enumerate(jr.split(k1, iters)):
         before = jax.device_get(state.step_state)
@@ -248,8 +249,9 @@ def record_onpolicy(cache: tb.EnvCache, cfg: dict, algo_name: str, N: int, iters
                        adv=[fx(x, D) for x in b.advantages], ret=[fx(x, D) for x in b.returns],
                        stats=proj_stats(s1.callback_state.states[1]))
             done_count[e] += sum(1 for r in rows if r["done"])
+            big[e] = big[e] or any(abs(r["rew"]) >= 2 * tb.BIG_REWARD and r["rew"] != 7777777 for r in rows)       # rew is in halves
             traces.append({"cfg": cfg, "init": init, "rows": rows, "final": fin,
-                           "meta": {"algo": algo_name, "N": N, "env": e, "iter": it, "dones_so_far": done_count[e],
+                           "meta": {"algo": algo_name, "N": N, "env": e, "iter": it, "dones_so_far": done_count[e], "big_reward_so_far": big[e],
                                     "cb_steps": int(s1.callback_state.states[0].n),
                                     "record": record_summary(backend, N)}})
     return traces
